@@ -89,17 +89,37 @@ def arith_rule(ck, prog):
 
         def scope(c, mod=mod):
             return c.kind != "closure" and (c.nname.startswith(mod + "::") or c.nname.startswith("<" + mod + "::"))
-        for trait, meth, nargs, want0, scale in ops:
+        ops = [(t_, m_, ["E"] * n_, w_, sc_) for t_, m_, n_, w_, sc_ in ops]
+        # conversions and fast paths whose reduction is linear in the operands (operand kinds: E element by value, R element by reference,
+        # an integer = raw machine integer with that maximum)
+        r2 = prog.consts_by_name.get(f"{mod}::R2")
+        if fname == "f62" and r2:
+            ops += [(None, "new", [2**64 - 1], {"a": int(r2[0]["scalar"])}, 2**64),
+                    ("winter_math::field::traits::StarkField", "as_int", ["R"], {"a": 1}, 2**64)]
+        if fname == "f64":
+            ops += [(None, "mul_small", ["E", 2**32 - 1], {"P[a*b]": 1}, 1)]
+        if fname == "f128":
+            ops += [(None, "new", [2**128 - 1], {"a": 1}, 1)]
+        for trait, meth, kinds, want0, scale in ops:
             try:
-                fn = prog.impl_method(be, trait, meth)
+                fn = prog.impl_method(be, trait, meth) if trait else prog.fn(f"{be}::{meth}")
             except AnchorError:
-                continue    # the field uses the trait's default body (decided through the operations it calls)
+                continue    # the field uses the trait's default body (decided through the operations it calls) / has no such fast path
             ck.saw(fn)
             li = LinInterp(prog, p, scope)
-            names = ["a", "b"][:nargs]
-            for nm in names:
-                li.atom(nm, 0, H)
-            env0 = {i + 1: ("adt", 0, [IV({nm: 1}, 0, H)]) for i, nm in enumerate(names)}
+            names = ["a", "b"][:len(kinds)]
+            env0 = {}
+            for i, (nm, kd) in enumerate(zip(names, kinds)):
+                hi_ = H if kd in ("E", "R") else kd
+                li.atom(nm, 0, hi_)
+                v_ = IV({nm: 1}, 0, hi_)
+                if kd == "E":
+                    env0[i + 1] = ("adt", 0, [v_])
+                elif kd == "R":
+                    env0["@" + nm] = ("adt", 0, [v_])
+                    env0[i + 1] = ("ref", "@" + nm, ())
+                else:
+                    env0[i + 1] = v_
             key = f"{fname}:{meth}"
             try:
                 outs = li.run(fn, env0)
@@ -113,7 +133,7 @@ def arith_rule(ck, prog):
             bad, unknown = None, 0
             for env, imprecise in outs:
                 r = env.get(0)
-                v = r[2][0] if isinstance(r, tuple) and r and r[0] == "adt" and r[2] else None
+                v = r[2][0] if isinstance(r, tuple) and r and r[0] == "adt" and r[2] else r
                 got = li.canon(lin_scale(v.lin, scale)) if isinstance(v, IV) and v.lin is not None else None
                 if got is None or imprecise:
                     unknown += 1
@@ -126,10 +146,12 @@ def arith_rule(ck, prog):
             for nn in li.inlined:
                 ck.analysed["functions"].add(nn)
             what = {"add": "a + b", "sub": "a - b", "neg": "-a", "double": "2a", "mul": "a*b (after multiplying the result by 2^64)",
-                    "square": "a*a (after multiplying the result by 2^64)"}[meth]
+                    "square": "a*a (after multiplying the result by 2^64)", "mul_small": "a*b (b any u32)",
+                    "new": "the Montgomery image of the integer" if info["mont"] else "the integer",
+                    "as_int": "the element's residue (the representation divided by 2^64)"}[meth]
             ck.ob("ARITH", key, bad is None,
                   f"{fname}::{meth}: on each of its {len(outs)} carry/borrow paths the stored integer is congruent modulo p to {what} "
-                  f"for all operands in [0, {'2M' if info['lazy'] else 'M'})", loc=fn.loc(),
+                  f"for all element operands in [0, {'2M' if info['lazy'] else 'M'}) and all integer operands", loc=fn.loc(),
                   detail=None if bad is None else {"computed (mod p)": show_lin(bad[0]), "expected": show_lin(want), "on the path with result in": list(bad[1])})
     # positive control: forgetting the borrow of a - b (b > a) is a different residue
     li = LinInterp(prog, 2**64 - 2**32 + 1, lambda c: False)
@@ -137,7 +159,7 @@ def arith_rule(ck, prog):
     li.atom("b", 0, 2**64 - 2**32)
     cs = li.wrap_cases("sub", IV({"a": 1}, 0, 2**64 - 2**32), IV({"b": 1}, 0, 2**64 - 2**32), "u64")
     ck.control("ARITH: a wrapping subtraction that can borrow yields two cases with different residues", len(cs) == 2 and li.canon(cs[0][0].lin) != li.canon(cs[1][0].lin))
-    ck.floor("ARITH: operations decided", n, 12)
+    ck.floor("ARITH: operations decided", n, 16)
 
 
 # ---- constants -----------------------------------------------------------------------------------
